@@ -34,7 +34,7 @@ def cases(tier, seed):
     for k in ALLKEYS:
         for tz in ('UTC', 'America/New_York', 'Asia/Kolkata', 'Pacific/Kiritimati'):
             cs.append({'t': 'times', 'key': k, 'tz': tz, 'seed': seed, 'n': 8 if tier == 'quick' else 200})
-    for k in ALLKEYS[:-1]:
+    for k in ALLKEYS[:-1] + ['ecdh_p256_0+kdf10.9', 'ecdh_p384_0+kdf8.7', 'cv25519_0+kdf10.9', 'ecdh_k256_0+kdf9.8', 'ecdh_p521_0+kdf8.8']:
         cs.append({'t': 'forms', 'key': k})
     cs.append({'t': 'leading_zero', 'seed': seed, 'n': 40 if tier == 'quick' else 1000})
     for alg in ('ed', 'cv', 'p256', 'k256', 'p384', 'p521', 'rsa1024', 'dsa1024'):
